@@ -66,6 +66,20 @@ func runC11_7(c *core.Ctx) {
 			var why string
 			record := false
 			isH := func(e ast.Expr) bool { return flow.ObjOf(f.Info, e) == h }
+			// locals assigned from h.buf
+			bufAlias := map[types.Object]bool{}
+			ast.Inspect(f.Decl.Body, func(n ast.Node) bool {
+				if as, ok := n.(*ast.AssignStmt); ok && len(as.Lhs) == len(as.Rhs) {
+					for i, r := range as.Rhs {
+						if sel, ok := ast.Unparen(r).(*ast.SelectorExpr); ok && flow.FieldOf(f.Info, sel) == a.nodeBuf && isH(sel.X) {
+							if lo := flow.ObjOf(f.Info, as.Lhs[i]); lo != nil {
+								bufAlias[lo] = true
+							}
+						}
+					}
+				}
+				return true
+			})
 			au := &flow.Auto{Start: sIdle}
 			au.Node = func(b *flow.Block, i int, n ast.Node, st int) int {
 				flow.Events(n, func(x ast.Node) {
@@ -86,6 +100,9 @@ func runC11_7(c *core.Ctx) {
 						if arg, kind := poolPut(f, y); arg != nil && kind == "byteslice" {
 							if sel, ok := ast.Unparen(arg).(*ast.SelectorExpr); ok && flow.FieldOf(f.Info, sel) == a.nodeBuf && isH(sel.X) {
 								st = sIdle
+							}
+							if bufAlias[flow.ObjOf(f.Info, arg)] {
+								st = sIdle // released through a local copy of b.buf
 							}
 						}
 					}
